@@ -39,7 +39,8 @@ EXTENDS SoyValues
 CONSTANT Dev    \* set of deviation names; {} is the reference design
 
 DevNames == {"nan_truthy", "eq_asymmetric_int_float", "struct_field_uppercase",
-             "typed_nil_not_null", "text_map_order", "marshaler_checked_after_deref"}
+             "typed_nil_not_null", "text_map_order", "marshaler_checked_after_deref",
+             "cache_by_printed_name"}
 
 -----------------------------------------------------------------------------
 (* Extended Soy values and their laws                                      *)
@@ -638,7 +639,75 @@ MarshalerFamily ==
   \cup UNION {{e, GPtr(e), GPtr(GPtr(e)), GSlice(<<GPtr(e), e>>), GMap("k" :> GPtr(e)),
                GStruct("", <<Fld("A", e), Fld("B", GPtr(e))>>)} : e \in EmbShapes}
 
-Pool(size) == Leaves \cup G1(size) \cup G2(size) \cup MarshalerFamily
+\* ---- conversion histories -------------------------------------------------
+\* Conversion must be a function of the value alone: converting g after any
+\* other conversions in the same process yields what converting g alone
+\* yields.  The family: DISTINCT struct types that collide under every
+\* plausible cache key - the printed name (reflect.Type.String(): function-
+\* local types "row" of one package; types "Row" of two packages whose import
+\* paths end in the same element), the bare name (pkga.Row / pkgb.Row), kind
+\* + number of fields, the list of field names - but differ in the fields:
+\* count, order, names, types, tags, exportedness.
+HFld(name, tag, val) == [name |-> name, emb |-> FALSE, tag |-> tag, val |-> val]
+HistStructs ==
+  {GStruct("row1", <<HFld("Title", "", GStr("Go")), HFld("Pages", "", GInt("int", 300))>>),
+   GStruct("row2", <<HFld("Name", "", GStr("ann")), HFld("Email", "", GStr("a@b")), HFld("Admin", "", GBool(TRUE))>>),
+   GStruct("row3", <<HFld("Pages", "", GInt("int", 300)), HFld("Title", "", GStr("Go"))>>),        \* other order
+   GStruct("row4", <<HFld("Title", "", GInt("int", 7)), HFld("Pages", "", GStr("many"))>>),         \* other types
+   GStruct("row5", <<HFld("Title", "", GStr("Go")), HFld("pages", "", GInt("int", 300))>>),        \* other exportedness
+   GStruct("row6", <<HFld("Title", "json:\"t\"", GStr("Go")), HFld("Pages", "soy:\"p\"", GInt("int", 300))>>),  \* other tags
+   GStruct("row7", <<HFld("A", "", GStr("x"))>>),                                                   \* fewer fields
+   GStruct("row8", <<HFld("hidden", "", GInt("int", 1)), HFld("Title", "", GStr("Go")), HFld("Pages", "", GInt("int", 300))>>),
+   GStruct("v1.Row", <<HFld("ID", "", GInt("int", 1)), HFld("Label", "", GStr("one"))>>),
+   GStruct("v2.Row", <<HFld("Label", "", GStr("two")), HFld("ID", "", GInt("int", 2)), HFld("Extra", "", GBool(FALSE))>>),
+   GStruct("pkga.Row", <<HFld("X", "", GInt("int", 1))>>),
+   GStruct("pkgb.Row", <<HFld("X", "", GStr("s")), HFld("Y", "", GInt("int", 2))>>)}
+\* the same types reached through a pointer / in a slice (the cache is hit
+\* from nested conversions too)
+HistValues == HistStructs \cup {GPtr(x) : x \in HistStructs} \cup {GSlice(<<x>>) : x \in HistStructs}
+
+\* what reflect.Type.String() prints for the declared type ty
+PrintedName(ty) ==
+  CASE ty \in {"row1", "row2", "row3", "row4", "row5", "row6", "row7", "row8"} -> "c20.row"
+    [] ty \in {"v1.Row", "v2.Row"} -> "models.Row"
+    [] OTHER -> ty
+
+\* the exported fields of a struct as a list of (index, key)
+RECURSIVE FieldListFrom(_, _, _)
+FieldListFrom(fs, i, o) ==
+  IF i > Len(fs) THEN <<>>
+  ELSE (IF Exported(fs[i].name) THEN <<[index |-> i, key |-> KeyLaw(fs[i], o)]>> ELSE <<>>)
+       \o FieldListFrom(fs, i + 1, o)
+
+Panic == [t |-> "panic"]       \* the conversion does not return
+
+\* Conversion with a process-wide cache (a function from cache keys to field
+\* lists).  The reference design keys it by the TYPE (ty): a hit returns what
+\* a walk over the type returns, i.e. the cache is invisible.  The deviation
+\* keys it by the printed name.
+CacheKey(g, o) == <<IF "cache_by_printed_name" \in Dev THEN PrintedName(g.ty) ELSE g.ty, o.lc>>
+RECURSIVE ConvertH(_, _, _)
+ConvertH(g, o, cache) ==
+  CASE g.g = "struct" ->
+         LET k == CacheKey(g, o)
+             fl == IF k \in DOMAIN cache THEN cache[k] ELSE FieldListFrom(g.v, 1, o) IN
+         IF \E j \in 1..Len(fl) : fl[j].index > Len(g.v) \/ ~Exported(g.v[fl[j].index].name) THEN Panic
+         ELSE M([key \in {fl[j].key : j \in 1..Len(fl)} |->
+                   Convert(g.v[fl[CHOOSE j \in 1..Len(fl) : fl[j].key = key].index].val, o, Rd0)])
+    [] g.g = "ptr" /\ ~g.nil -> ConvertH(g.v, o, cache)
+    [] g.g = "slice" -> LET xs == [i \in 1..Len(g.v) |-> ConvertH(g.v[i], o, cache)] IN
+                        IF \E i \in 1..Len(xs) : xs[i] = Panic THEN Panic ELSE L(xs)
+    [] OTHER -> Convert(g, o, Rd0)
+RECURSIVE CacheAfter(_, _, _)
+CacheAfter(g, o, cache) ==
+  CASE g.g = "struct" ->
+         LET k == CacheKey(g, o) IN
+         IF k \in DOMAIN cache THEN cache ELSE (k :> FieldListFrom(g.v, 1, o)) @@ cache
+    [] g.g = "ptr" /\ ~g.nil -> CacheAfter(g.v, o, cache)
+    [] g.g = "slice" /\ Len(g.v) = 1 -> CacheAfter(g.v[1], o, cache)
+    [] OTHER -> cache
+
+Pool(size) == Leaves \cup G1(size) \cup G2(size) \cup MarshalerFamily \cup HistValues
 
 \* the same pool cut into parts (one TLC process each)
 PoolPart(size, part) ==
@@ -647,7 +716,7 @@ PoolPart(size, part) ==
     [] part = 2 -> {GSlice(<<x>>) : x \in G1(size)} \cup {GSliceT(<<x>>) : x \in G1(size)}
     [] part = 3 -> {GMap("k" :> x) : x \in G1(size)} \cup {GMapT("Key" :> x) : x \in G1(size)}
     [] part = 4 -> ContB(R1(size))
-    [] part = 5 -> MarshalerFamily
+    [] part = 5 -> MarshalerFamily \cup HistValues
 Parts == 0..5
 
 \* Go values whose conversions feed the pair laws (depth <= 1; arrays left
